@@ -154,7 +154,10 @@ struct Report {
     std::vector<std::string> samples;
     std::map<std::string, unsigned long> counters;
     std::vector<std::string> spaces;
+    std::set<std::string> spacesCut;      // spaces whose enumeration the deadline interrupted (the others were covered completely)
     bool exhaustive = true;
+    void cut(){ exhaustive = false; if(!spaces.empty()) spacesCut.insert(spaces.back()); }
+    void cutSpace(const std::string& desc){ exhaustive = false; spacesCut.insert(desc); if(std::find(spaces.begin(), spaces.end(), desc) == spaces.end()) spaces.push_back(desc); }
     std::chrono::steady_clock::time_point start = std::chrono::steady_clock::now();
     double deadlineSeconds = 1e18;
 
@@ -208,6 +211,8 @@ struct Report {
         for(size_t i = 0 ; i < samples.size() ; ++i) f << (i ? "," : "") << "\n  \"" << jsonEscape(samples[i]) << "\"";
         f << "\n ],\n \"spaces\": [";
         for(size_t i = 0 ; i < spaces.size() ; ++i) f << (i ? "," : "") << "\n  \"" << jsonEscape(spaces[i]) << "\"";
+        f << "\n ],\n \"spaces_cut\": [";
+        { bool firstCut = true; for(const auto& c : spacesCut){ f << (firstCut ? "" : ",") << "\n  \"" << jsonEscape(c) << "\""; firstCut = false; } }
         f << "\n ],\n \"counters\": {";
         first = true;
         for(const auto& kv : counters){ f << (first ? "" : ",") << "\n  \"" << jsonEscape(kv.first) << "\": " << kv.second; first = false; }
